@@ -79,6 +79,15 @@ def digest(f):
                     if any(y is cur for y in walk(p_["c"][1])):
                         ok, w = _proves(p_["c"][0], operand)
                         proved, why = ok, (w or why)
+                    elif len(p_["c"]) > 2 and p_["c"][2] is not None and any(y is cur for y in walk(p_["c"][2])):
+                        # else-branch of `if (!proof)`
+                        c0 = strip(p_["c"][0])
+                        if c0 is not None and c0["k"] == "UnaryOperator" and c0["op"] == "!":
+                            ok, w = _proves(c0["c"][0], operand)
+                            proved, why = ok, (w or why)
+                        elif c0 is not None and c0["k"] == "BinaryOperator" and c0["op"] == "==" and const_value(c0["c"][1]) == 0:
+                            ok, w = _proves(c0["c"][0], operand)
+                            proved, why = ok, (w or why)
                     elif p_["c"][0] is cur or any(y is cur for y in walk(p_["c"][0])):
                         if cur is c or strip(cur) is c:
                             truth_only = True
@@ -87,8 +96,12 @@ def digest(f):
                         if st is cur or any(y is cur for y in walk(st)):
                             break
                         # assert(x) expands to a conditional whose condition mentions x
-                        if any(y["k"] == "CallExpr" and y.get("callee") in ("bintIsSmall",) and _same(y["c"][1], operand) for y in walk(st)):
-                            proved = True
+                        if st["k"] != "IfStmt" and any(y["k"] == "CallExpr" and y.get("callee") in ("bintIsSmall",) and _same(y["c"][1], operand) for y in walk(st)):
+                            proved = True                      # assert(bintIsSmall(b))
+                        if st["k"] == "IfStmt" and common.ends_flow(st["c"][1]) and (len(st["c"]) < 3 or st["c"][2] is None):
+                            c0 = strip(st["c"][0])             # if (!bintIsSmall(b)) return ...;
+                            if c0 is not None and c0["k"] == "UnaryOperator" and c0["op"] == "!" and _proves(c0["c"][0], operand)[0]:
+                                proved = True
                 cur = p_
             out.append((name, c["l"], render(strip(operand))[:50], proved, truth_only, why))
     return out
